@@ -17,7 +17,7 @@ CONSTANTS Design = "copy"
           WithDefaults = TRUE
           Bad = FALSE
           CtxKinds = {"none"}
-          IdleSlack = 2
+          IdleSlack = 1
           MinPeriod = 1
 INVARIANTS ExactlyOnceInOrder CountMatches Decodable ZipIff DefaultsInForce HandedOverIsImmutable IdleWaitBounded
 PROPERTIES FlushWhenDue
